@@ -194,7 +194,16 @@ class Session:
                 return ev
 
     def drain(self, ms):
-        """Collect whatever arrives within ms (late info lines of the search thread)."""
+        """Collect whatever arrives within ms (late info lines of the search thread).  On a machine that is heavily
+        loaded a thread that was pre-empted between handing over its board and printing the line may not run again for
+        tens of milliseconds: the wait then grows with the load (the line is genuine output of the EARLIER search; the
+        longer it is waited for here, the less often the trace specification has to recognise it by its content)."""
+        try:
+            load = os.getloadavg()[0] / max(os.cpu_count() or 1, 1)
+        except OSError:
+            load = 0.0
+        if ms <= 50 and load > 1.5:
+            ms = min(ms * (1 + int(load)), 150)
         end = time.monotonic() + ms / 1000.0
         while True:
             rem = end - time.monotonic()
